@@ -233,6 +233,14 @@ def stream_read_profile(P):
             if isinstance(e, ast.Subscript) and isinstance(ev(e.value), tuple) and isinstance(ev(e.slice), int):
                 t_, i_ = ev(e.value), ev(e.slice)
                 return t_[i_] if -len(t_) <= i_ < len(t_) else None
+            if isinstance(e, ast.Compare) and len(e.ops) == 1 and isinstance(e.ops[0], (ast.In, ast.NotIn)) \
+                    and isinstance(e.comparators[0], (ast.Dict, ast.Set, ast.Tuple, ast.List)):
+                a = ev(e.left)
+                c_ = e.comparators[0]
+                ks = [ev(k) for k in (c_.keys if isinstance(c_, ast.Dict) else c_.elts)]
+                if a is None or any(k is None for k in ks):
+                    return None
+                return (a in ks) == isinstance(e.ops[0], ast.In)
             if isinstance(e, ast.Compare) and len(e.ops) == 1:
                 a, b = ev(e.left), ev(e.comparators[0])
                 if a is None or b is None:
